@@ -573,6 +573,11 @@ pub trait Driver: Sync + Send {
     fn spec(&self) -> Value {
         Value::Null
     }
+    /// Quiescent reads after all threads have finished. Runs on a pool thread
+    /// *under the scheduler* (so a call that would spin forever is reported as a
+    /// deadlock instead of hanging the check); its calls are appended to the
+    /// history with thread id 99 and positions after every other call.
+    fn epilogue(&self, _sh: &Self::Shared, _rec: &Recorder) {}
 }
 
 type Job = Box<dyn FnOnce() + Send>;
@@ -651,7 +656,7 @@ pub fn run_one<D: Driver + 'static>(
     while st.finished < n {
         st = exec.done.wait(st).unwrap();
     }
-    let x = Execution {
+    let mut x = Execution {
         nodes: std::mem::take(&mut st.nodes),
         steps: std::mem::take(&mut st.steps),
         calls: std::mem::take(&mut st.calls),
@@ -659,6 +664,56 @@ pub fn run_one<D: Driver + 'static>(
         spin_obs: std::mem::take(&mut st.spin_obs),
     };
     drop(st);
+    if x.abort.is_none() && std::env::var("VSCHED_NO_EPILOGUE").is_err() {
+        // epilogue phase: one thread, still under the scheduler
+        let exec2 = Exec::new(1, vec![], vec![], false, max_steps);
+        let e3 = exec2.clone();
+        let d = driver.clone();
+        let sh = shared.clone();
+        // a single thread never waits for anybody, so the phase can run right here on the explorer thread
+        {
+            let hook = Arc::new(ThreadHook { exec: e3.clone(), me: 0 });
+            set_thread_hook(Some(hook));
+            let rec = Recorder { exec: e3.clone(), me: 0 };
+            let r = std::panic::catch_unwind(std::panic::AssertUnwindSafe(|| {
+                e3.sched_point(0, Pending::pseudo(PKind::Start));
+                d.epilogue(&sh, &rec);
+            }));
+            set_thread_hook(None);
+            let msg = match r {
+                Ok(()) => None,
+                Err(p) => {
+                    if p.downcast_ref::<Aborted>().is_some() {
+                        None
+                    } else {
+                        Some(p.downcast_ref::<String>().cloned().or_else(|| p.downcast_ref::<&str>().map(|s| s.to_string())).unwrap_or_else(|| "panic".into()))
+                    }
+                }
+            };
+            drop(rec);
+            drop(sh);
+            e3.finish_thread(0, msg);
+        }
+        let mut st2 = exec2.st.lock().unwrap();
+        let base = x.steps.len() + 1;
+        for mut c in std::mem::take(&mut st2.calls) {
+            c.thread = 99;
+            c.inv += base;
+            c.res += base;
+            x.calls.push(c);
+        }
+        if let Some(a) = st2.abort.clone() {
+            x.abort = Some(match a {
+                Abort::Deadlock(m) => Abort::Deadlock(format!("in the quiescent reads after all threads finished: {}", m)),
+                other => other,
+            });
+        }
+        // epilogue steps are appended to the trace (thread shown as 99)
+        for mut srec in std::mem::take(&mut st2.steps) {
+            srec.thread = 99;
+            x.steps.push(srec);
+        }
+    }
     (x, shared)
 }
 
